@@ -97,6 +97,8 @@ def unary(name, x):
             return nf_abs(v)
         if name == 'expm1':
             return app('exp', v) - 1
+        if name == 'exp' and v.is_zero():
+            return nf.ONE
         return app(name, v)
     r = lift(f, x)
     return r if r is not None else app(name, P(x))
